@@ -34,6 +34,13 @@ pub enum Step {
     Discover { server: usize, wait: bool },
     DoubleClaim { peer1: usize, peer2: usize },
     DeadProxy,
+    /// several proxies of one service on one client: `subs[i]` = (subscribed to `event`, via
+    /// all-events, also subscribed to the neighbouring event id); one of them is dropped or
+    /// unsubscribed half-way, the siblings must keep (exactly) their own subscriptions
+    ProxyFamily { server: usize, event: u32, subs: Vec<(bool, bool, bool)>, leave: usize, by_drop: bool },
+    /// introspection: register a type on this client, submit, then query it (and a type nobody
+    /// registered) through another client's handle
+    Introspect { ty: u32, via: usize },
 }
 
 #[derive(Clone, Debug)]
@@ -85,10 +92,13 @@ pub fn gen_program_focus(r: &mut Rng, with_double_claim: bool, focus: u8) -> Pro
                     1 => {
                         // channel steps, one in five a refused second claim of a channel end
                         let k = r.below(5);
-                        if k == 4 { 23 } else { 14 + k.min(2) }
+                        if k == 4 { 99 } else { 14 + k.min(2) }
                     }
-                    2 => *r.pick(&[5usize, 10, 10, 11, 11, 12, 12, 13, 1]),
-                    _ => r.below(if with_double_claim { 24 } else { 23 }),
+                    2 => *r.pick(&[5usize, 10, 10, 11, 11, 12, 12, 13, 1, 23, 23, 24]),
+                    _ => {
+                        let k = r.below(if with_double_claim { 27 } else { 26 });
+                        if k == 26 { 99 } else { k }
+                    }
                 };
                 let s = match pick {
                     0 => Step::SyncClient,
@@ -110,6 +120,12 @@ pub fn gen_program_focus(r: &mut Rng, with_double_claim: bool, focus: u8) -> Pro
                     19 => Step::Lifetime,
                     20 | 21 => Step::Discover { server, wait: r.bool() },
                     22 => Step::DeadProxy,
+                    23 | 24 => {
+                        let n = r.range(2, 4);
+                        let subs = (0..n).map(|_| (r.chance(2, 3), r.chance(1, 4), r.chance(1, 3))).collect();
+                        Step::ProxyFamily { server, event: r.below(3) as u32, subs, leave: r.below(n), by_drop: r.chance(2, 3) }
+                    }
+                    25 => Step::Introspect { ty: r.below(3) as u32, via: r.below(nclients) },
                     _ => Step::DoubleClaim { peer1: r.below(nclients), peer2: r.below(nclients) },
                 };
                 steps.push(s);
@@ -130,6 +146,36 @@ pub struct Env {
     abandon: std::cell::RefCell<Vec<bool>>,
     /// run post-mortem operations at the end of every application task
     post_mortem: bool,
+    /// a fault or termination is injected into this run (results that depend on who is alive are
+    /// not judged)
+    faulty: bool,
+}
+
+struct IntroT<const K: u32>;
+
+impl<const K: u32> aldrin_core::introspection::Introspectable for IntroT<K> {
+    fn layout() -> aldrin_core::introspection::ir::LayoutIr {
+        use aldrin_core::introspection::ir;
+        ir::StructIr::builder("c06", format!("T{}", K))
+            .field(ir::FieldIr::builder(K, "f", true, <u32 as aldrin_core::introspection::Introspectable>::lexical_id()).finish())
+            .finish()
+            .into()
+    }
+    fn lexical_id() -> aldrin_core::introspection::LexicalId {
+        aldrin_core::introspection::LexicalId::custom("c06", format!("T{}", K))
+    }
+    fn add_references(references: &mut aldrin_core::introspection::References) {
+        references.add::<u32>();
+    }
+}
+
+fn intro_type(k: u32) -> aldrin_core::introspection::DynIntrospectable {
+    use aldrin_core::introspection::DynIntrospectable;
+    match k {
+        0 => DynIntrospectable::new::<IntroT<0>>(),
+        1 => DynIntrospectable::new::<IntroT<1>>(),
+        _ => DynIntrospectable::new::<IntroT<2>>(),
+    }
 }
 
 impl Env {
@@ -506,6 +552,197 @@ async fn app(env: Rc<Env>, me: usize, name: String, steps: Vec<Step>) {
                     other => sh.fail("dead-proxy-create", format!("proxy for a destroyed service: {:?}", other.map(|_| ()))),
                 }
             }
+            Step::ProxyFamily { server, event, subs, leave, by_drop } => {
+                let Some(id) = env.servers[server].1.wait().await else { continue };
+                let other = (event + 1) % 3;
+                let mut fam: Vec<Option<Proxy>> = Vec::new();
+                // what each proxy is subscribed to: (event, all events, other event)
+                let mut eff: Vec<(bool, bool, bool)> = Vec::new();
+                let mut broken = false;
+                for &(sub, all, sub_other) in &subs {
+                    let mut p = match proxy(&sh, &h, id).await {
+                        Ok(p) => p,
+                        Err(e) => {
+                            unexpected(&sh, "create_proxy", &e);
+                            broken = true;
+                            break;
+                        }
+                    };
+                    let mut e = (false, false, false);
+                    if sub && all && p.can_subscribe_all() && env.versions[me] >= 18 {
+                        sh.op("subscribe_all");
+                        match p.subscribe_all().await {
+                            Ok(()) => e.1 = true,
+                            Err(err) => unexpected(&sh, "subscribe_all", &err),
+                        }
+                    } else if sub {
+                        sh.op("subscribe");
+                        match p.subscribe(event).await {
+                            Ok(()) => e.0 = true,
+                            Err(err) => unexpected(&sh, "subscribe", &err),
+                        }
+                    }
+                    if sub_other {
+                        sh.op("subscribe");
+                        match p.subscribe(other).await {
+                            Ok(()) => e.2 = true,
+                            Err(err) => unexpected(&sh, "subscribe", &err),
+                        }
+                    }
+                    fam.push(Some(p));
+                    eff.push(e);
+                }
+                if broken {
+                    continue;
+                }
+                for round in 0..2 {
+                    // one emit request per event id, through any proxy that is still there
+                    let mut tags = [0u64; 2];
+                    let mut failed = false;
+                    for (k, ev_id) in [event, other].into_iter().enumerate() {
+                        let tag = env.nonce();
+                        tags[k] = tag;
+                        let Some(caller) = fam.iter().flatten().next() else { break };
+                        sh.op("call:fn5");
+                        match caller.call(FN_EMIT, (ev_id, 2u32, tag), None).await {
+                            Ok(r) => {
+                                if !matches!(r.deserialize::<u64, u64>(), Ok(Ok(t)) if t == tag) {
+                                    sh.fail("call-result:fn5", format!("emit request with tag {} answered with something else", tag));
+                                }
+                            }
+                            Err(e) => {
+                                unexpected(&sh, "call:fn5", &e);
+                                failed = true;
+                            }
+                        }
+                    }
+                    if failed {
+                        break;
+                    }
+                    // everything the broker sent before the replies has been handled by the client
+                    // once a later request of this client has been answered
+                    sh.op("sync_broker");
+                    if let Err(e) = h.sync_broker().await {
+                        unexpected(&sh, "sync_broker", &e);
+                        break;
+                    }
+                    for (i, slot) in fam.iter_mut().enumerate() {
+                        let Some(p) = slot.as_mut() else { continue };
+                        let want_event = eff[i].0 || eff[i].1;
+                        let want_other = eff[i].2 || eff[i].1;
+                        // drain what is queued on this proxy without waiting
+                        let mut got = [0u32; 2];
+                        loop {
+                            let w = std::task::Waker::noop();
+                            let mut cx = std::task::Context::from_waker(&w);
+                            sh.op("next_event(poll)");
+                            match p.poll_next_event(&mut cx) {
+                                std::task::Poll::Ready(Some(ev)) => match ev.deserialize::<(u64, u32)>() {
+                                    Ok((t, n)) => {
+                                        for k in 0..2 {
+                                            if t == tags[k] {
+                                                let expect_id = if k == 0 { event } else { other };
+                                                if ev.id() != expect_id || n != got[k] {
+                                                    sh.fail("family-event-order", format!("proxy {} of the family: event #{} id {} for tag {}, expected #{} id {}", i, n, ev.id(), t, got[k], expect_id));
+                                                }
+                                                got[k] += 1;
+                                            }
+                                        }
+                                    }
+                                    Err(e) => sh.fail("event-payload", format!("event payload does not decode: {:?}", e)),
+                                },
+                                std::task::Poll::Ready(None) => break,
+                                std::task::Poll::Pending => break,
+                            }
+                        }
+                        for (k, want) in [want_event, want_other].into_iter().enumerate() {
+                            let exp = if want { 2 } else { 0 };
+                            if got[k] != exp {
+                                sh.fail(
+                                    if got[k] < exp { "family-event-missing" } else { "family-event-unsubscribed" },
+                                    format!(
+                                        "proxy {} of {} on one client (subscriptions event/all/other = {:?}, round {}, sibling {} {}): received {} of the 2 events of id {} emitted for tag {}, expected {}",
+                                        i, subs.len(), eff[i], round, leave, if round == 0 { "still present" } else if by_drop { "dropped" } else { "unsubscribed" },
+                                        got[k], if k == 0 { event } else { other }, tags[k], exp
+                                    ),
+                                );
+                            }
+                        }
+                    }
+                    if round == 0 {
+                        if by_drop {
+                            sh.op("drop:proxy");
+                            fam[leave] = None;
+                        } else if let Some(p) = fam[leave].as_mut() {
+                            if eff[leave].1 {
+                                sh.op("unsubscribe_all");
+                                if let Err(e) = p.unsubscribe_all().await {
+                                    unexpected(&sh, "unsubscribe_all", &e);
+                                }
+                                // unsubscribe_all ends every subscription of this proxy
+                                eff[leave] = (false, false, false);
+                            } else {
+                                sh.op("unsubscribe");
+                                if let Err(e) = p.unsubscribe(event).await {
+                                    unexpected(&sh, "unsubscribe", &e);
+                                }
+                                eff[leave].0 = false;
+                            }
+                        }
+                    }
+                }
+                sh.op("drop:proxy");
+                drop(fam);
+            }
+            Step::Introspect { ty, via } => {
+                if env.faulty {
+                    // with a dying registrant the answer depends on when it dies: only exercised
+                    continue;
+                }
+                sh.op("register_introspection");
+                let dynty = intro_type(ty);
+                let type_id = aldrin_core::TypeId::compute_from_dyn(dynty);
+                if let Err(e) = h.register_introspection_dyn(dynty) {
+                    unexpected(&sh, "register_introspection", &e);
+                    continue;
+                }
+                sh.op("submit_introspection");
+                if let Err(e) = h.submit_introspection() {
+                    unexpected(&sh, "submit_introspection", &e);
+                    continue;
+                }
+                sh.op("sync_broker");
+                if let Err(e) = h.sync_broker().await {
+                    unexpected(&sh, "sync_broker", &e);
+                    continue;
+                }
+                if env.abandoned(via) {
+                    continue;
+                }
+                let q = env.h(via);
+                sh.op("query_introspection");
+                match q.query_introspection(type_id).await {
+                    Ok(Some(i)) => {
+                        if i.type_id() != type_id {
+                            sh.fail("introspection-wrong-type", format!("query for {:?} returned the introspection of {:?}", type_id, i.type_id()));
+                        }
+                    }
+                    Ok(None) => {
+                        // registration needs protocol 1.17 on the registrant, the query on the asker
+                        if env.versions[me] >= 17 && env.versions[via] >= 17 {
+                            sh.fail("introspection-missing", format!("client {} registered and submitted {:?} (acknowledged by a later sync), the query through client {} returned None", me, type_id, via));
+                        }
+                    }
+                    Err(e) => unexpected(&sh, "query_introspection", &e),
+                }
+                sh.op("query_introspection:unknown");
+                let bogus = aldrin_core::TypeId(Uuid::from_u128(0xC06_F000_0000 + env.nonce() as u128));
+                match q.query_introspection(bogus).await {
+                    Ok(None) => {}
+                    Ok(Some(i)) => sh.fail("introspection-invented", format!("query for a type id nobody registered returned {:?}", i.type_id())),
+                    Err(e) => unexpected(&sh, "query_introspection", &e),
+                }
+            }
             Step::DoubleClaim { peer1, peer2 } => {
                 double_claim(&env, me, peer1, peer2).await;
             }
@@ -856,6 +1093,7 @@ pub fn run_program_opts(prog: &Program, sched_seed: u64, opts: &RunOpts, out: &m
         nonce: Rc::new(Cell::new(0)),
         abandon: std::cell::RefCell::new(vec![false; prog.clients.len()]),
         post_mortem: faulty,
+        faulty,
     });
     for (i, (c, steps)) in prog.apps.iter().enumerate() {
         let name = format!("app{}@{}", i, c);
